@@ -49,6 +49,7 @@ func checkC13(c *core.Ctx) error {
 	checkLogArith(c)
 	checkLogTwins(c)
 	checkLogErfc(c)
+	checkGammaDispatcher(c)
 	return nil
 }
 
